@@ -116,12 +116,12 @@ STRICT = {'parse_addition', 'parse_multiplication', 'parse_singular_expression',
           'parse_rest_of_function_signature', 'parse_function_body', 'parse_primary_expression', 'parse_statement'}
 TABLE = {
     'parse_declaration': dict(c=0, recent=False, zone='toggles', ens=['[C15.parse.parse_declaration.ok_only_at_declaration_start] r is Ok ==> is_decl_start(cur(*old(tokens))),']),
-    'parse_import_declaration': dict(c=0, req=['[C17.parse.zone_matches_visibility] (old(buffer).active_private_zone is None) == (flags.bits & 1 != 0),']),
-    'parse_constant_declaration': dict(c=0, req=['[C17.parse.zone_matches_visibility] (old(buffer).active_private_zone is None) == (flags.bits & 1 != 0),']),
-    'parse_word_declaration': dict(c=0, req=['[C17.parse.zone_matches_visibility] (old(buffer).active_private_zone is None) == (flags.bits & 1 != 0),', 'declaring_token is Word8 || declaring_token is Word16 || declaring_token is Word32 || declaring_token is Word64 || declaring_token is Word128,']),
-    'parse_struct_declaration': dict(c=0, req=['[C17.parse.zone_matches_visibility] (old(buffer).active_private_zone is None) == (flags.bits & 1 != 0),']),
+    'parse_import_declaration': dict(c=0, req=['[C17.parse.zone_matches_visibility] (old(buffer).active_private_zone is None) == has(flags, DeclarationFlag::Public),']),
+    'parse_constant_declaration': dict(c=0, req=['[C17.parse.zone_matches_visibility] (old(buffer).active_private_zone is None) == has(flags, DeclarationFlag::Public),']),
+    'parse_word_declaration': dict(c=0, req=['[C17.parse.zone_matches_visibility] (old(buffer).active_private_zone is None) == has(flags, DeclarationFlag::Public),', 'declaring_token is Word8 || declaring_token is Word16 || declaring_token is Word32 || declaring_token is Word64 || declaring_token is Word128,']),
+    'parse_struct_declaration': dict(c=0, req=['[C17.parse.zone_matches_visibility] (old(buffer).active_private_zone is None) == has(flags, DeclarationFlag::Public),']),
     'parse_struct_members': dict(c=1 - K, recent=False, loops={0: dict(c=-K, lists=['list'])}),
-    'parse_function_declaration': dict(c=0, recent=False, zone='toggles', req=['[C17.parse.zone_matches_visibility] (old(buffer).active_private_zone is None) == (flags.bits & 1 != 0),'], ens=['[C17.parse.function_declaration_restores_zone_state] r is Ok ==> (final(buffer).active_private_zone is None) == (flags.bits & 1 != 0),']),
+    'parse_function_declaration': dict(c=0, recent=False, zone='toggles', req=['[C17.parse.zone_matches_visibility] (old(buffer).active_private_zone is None) == has(flags, DeclarationFlag::Public),'], ens=['[C17.parse.function_declaration_restores_zone_state] r is Ok ==> (final(buffer).active_private_zone is None) == has(flags, DeclarationFlag::Public),']),
     'parse_rest_of_function_signature': dict(c=2 - K, recent='pair1', loops={0: dict(c=-K, lists=['list'])}),
     'parse_member': dict(c=0),
     'parse_parameter': dict(c=0),
@@ -199,7 +199,7 @@ def gen_parse_contracts(u):
         out.append('--- body_prefix')
         out.append('\tlet ghost t0 = *tokens; let ghost b0 = *buffer;')
         if n in ('parse_declaration', 'parse_function_declaration'):
-            out.append('\tproof { assert(forall|x: u8| (x | 2u8) & 1u8 == x & 1u8) by (bit_vector); assert((0u8 | 1u8) & 1u8 == 1u8) by (bit_vector); assert(0u8 & 1u8 == 0u8) by (bit_vector); }')
+            pass
         head, ret, where, body = __import__('vlib.rsparse', fromlist=['x']).fn_signature_split(it.text)
         loops = __import__('vlib.rsparse', fromlist=['x']).find_loops(body)
         for k, (kw, hdr, bo) in enumerate(loops):
